@@ -501,11 +501,11 @@ Qed.
 Lemma line_result_strip_ext : forall a b, strip a = strip b -> line_result a = line_result b.
 Proof. intros a b H. unfold line_result. rewrite H, (parse_line_strip_ext a b H). reflexivity. Qed.
 
-(* l without quote and without "//"; c arbitrary *)
-Theorem line_result_trailing_comment : forall l c, plain l = true ->
+(* l without quote and without "//", not ending with the token base64 / b64 (after which "//..." is data); c arbitrary *)
+Theorem line_result_trailing_comment : forall l c, plain l = true -> last_tok_b64 l = false ->
   line_result (l ++ " //" ++ c) = line_result l.
 Proof.
-  intros l c Hp. unfold line_result. rewrite parse_line_comment_gen by exact Hp.
+  intros l c Hp Hb. unfold line_result. rewrite parse_line_comment_gen by assumption.
   destruct (lstrip l) as [|c0 L0] eqn:EL.
   - apply lstrip_nil_all_space in EL. rewrite (parse_line_blank l EL).
     destruct (starts_with "//" (strip (l ++ " //" ++ c))); destruct (starts_with "//" (strip l)); reflexivity.
